@@ -26,6 +26,18 @@ struct upump_mgr *fake_upump_current(void);
 void fake_eventfd_reset(void);
 int fake_eventfd_live(void);
 
+/* ---- added for harness/pipes_hold.c: a harness-owned *source* pump (allocated on this loop with the ordinary
+ * upump_alloc_* calls, typically an fd-read pump on a real descriptor, which the fake loop never finds ready by
+ * itself) is fired explicitly by the harness, which plays the part of the event source ---- */
+/* true if the pump is started and no blocker is registered on it (it would fire if its event came) */
+bool fake_upump_pump_active(struct upump *upump);
+/* dispatch this very pump now, exactly as the loop would (upump_common_dispatch); false (and nothing done) if it is not active */
+bool fake_upump_fire(struct upump *upump);
+/* number of blockers currently registered on the pump */
+int fake_upump_pump_blockers(struct upump *upump);
+/* number of active timers of the loop / earliest deadline among them (UINT64_MAX if none) */
+int fake_upump_timers(struct upump_mgr *mgr, uint64_t *earliest_p);
+
 /* fake clock bound to a loop's virtual time */
 struct uclock *fake_uclock_alloc(struct upump_mgr *mgr, uint64_t offset);
 #endif
